@@ -29,6 +29,8 @@ ASSUMPTIONS = ["combine operands are drawn from the derivation tree (same root, 
 
 KINDS = ["colander", "combine", "chef"]
 SEQS = [[a] for a in KINDS] + [[a, b] for a in KINDS for b in KINDS]
+# a strained (fewer fields, possibly fewer levels, rewritten in header order) copy combined with its ancestor, both ways
+SEQS += [["view_ab"], ["view_ba"], ["view_ab"], ["view_ba"]]
 
 
 # --------------------------------------------------------------------------- executing a history
@@ -188,21 +190,28 @@ def apply_op(w, op):
             return True
         if kind == "combine":
             a = w.pick(op["a"])
-            cands = [i for i, it in enumerate(w.items) if it["rootid"] == a["rootid"] and it["nlev"] == a["nlev"] and it is not a]
+            # same mesh; a deeper plotfile takes part as a view of its levels 0..L (reader opened with a level limit)
+            cands = [i for i, it in enumerate(w.items) if it["rootid"] == a["rootid"] and it is not a]
             if not cands:
                 return False
             b = w.items[cands[op["b"] % len(cands)]]
             ma, mb = a["model"], b["model"]
+            lim = None
+            if a["nlev"] != b["nlev"]:
+                lim = min(a["nlev"], b["nlev"]) - 1
+                ma, mb = ma.select(list(range(len(ma.fields))), lim), mb.select(list(range(len(mb.fields))), lim)
             v1 = None if op["vars1"] is None else list(dict.fromkeys(_names(ma, op["vars1"])))
             v2 = None if op["vars2"] is None else list(dict.fromkeys(_names(mb, op["vars2"])))
             s1 = list(ma.fields) if v1 is None else v1
             s2 = [f for f in (list(mb.fields) if v2 is None else v2) if f not in s1]
             if not s2:
                 return False
+            if lim is not None:
+                w.ctx.label("combine:level-limited-view")
             pools.set_schedule(op.get("sched"))
             try:
-                qcall(combine, qcall(PlotfileCooker, a["name"]), qcall(PlotfileCooker, b["name"]), pltout=name,
-                      vars1=None if v1 is None else " ".join(v1), vars2=v2)
+                qcall(combine, qcall(PlotfileCooker, a["name"], limit_level=lim), qcall(PlotfileCooker, b["name"], limit_level=lim),
+                      pltout=name, vars1=None if v1 is None else " ".join(v1), vars2=v2)
             finally:
                 pools.set_schedule(None)
             model = ma.concat(mb, [ma.fields.index(f) for f in s1], [mb.fields.index(f) for f in s2])
@@ -279,6 +288,20 @@ def cases(draw, tier="quick"):
     """Explicit kind-sequences of length <= 2 (each with drawn parameters); combine gets a sibling made on purpose."""
     seq = SEQS[draw(st.integers(0, 2 ** 16)) % len(SEQS)]
     hist = [draw(gen_ops())]
+    if seq[0].startswith("view_"):
+        col = dict(draw(colander_ops), src=0, unknown_at=[])
+        col["vars"] = col["vars"][:draw(st.integers(1, 2))]
+        nlev0 = (hist[0].get("spec") or hist[0].get("chk"))["mesh"]["nlev"]
+        if nlev0 >= 2 and draw(st.booleans()):
+            col["limit"] = draw(st.integers(0, nlev0 - 2))      # strictly fewer levels than the ancestor
+        hist.append(col)
+        comb = dict(draw(combine_ops))
+        if seq[0] == "view_ab":        # strained copy first, ancestor second: the ancestor supplies the fields strained away
+            comb.update(a=1, b=0, vars1=None)
+        else:                          # ancestor first (some of its fields), strained copy second
+            comb.update(a=0, b=0, vars1=draw(st.lists(idx, min_size=1, max_size=2)), vars2=None)
+        hist.append(comb)
+        return dict(history=hist, seq=seq)
     for i, kind in enumerate(seq):
         op = dict(draw(OPS[kind]))
         if kind == "combine":
